@@ -1,0 +1,53 @@
+//go:build verif
+
+package filter
+
+// Contracts for the govc verifier (/verif/DESIGN.md, C16). Comment-only.
+//
+// member(f, k): every hash function of f maps k to a set bit. fidx is the bit index the real code
+// computes: murmur3 with the hasher's seed over the key bytes, modulo the bitset length.
+//
+//@ define hreset(f) = all(j, 0, len(f.hashFns), HashBuf[f.hashFns[j]] == "")
+//@ define fidx(f, j, k) = mm3(hseed(f.hashFns[j]), k) % len(f.bitset)
+//@ define member(f, k) = all(j, 0, len(f.hashFns), f.bitset[fidx(f, j, k)])
+//
+//@ func filter.New -> r
+//@ props C16
+//@ requires n > 0 && !(p <= flt("0")) && !(p >= flt("1"))
+//@ ensures r != nil && len(r.bitset) > 0 && hreset(r) && ref(r) >= old(alloc) && arrid(r.bitset) >= old(alloc) && arrid(r.hashFns) >= old(alloc)
+//@ assigns HashBuf
+//@ assume_after m: m >= 1
+//@ assume_after k: k >= 0
+//@ loop 0:
+//@   invariant len(hashFns) == k
+//@   invariant all(j, 0, rangeint_iter, HashBuf[hashFns[j]] == "")
+//
+//@ func (*filter.Filter).Add
+//@ props C16
+//@ requires len(f.bitset) > 0 && hreset(f)
+//@ assigns f.bitset[*], HashBuf
+//@ ensures hreset(f) && member(f, key)
+//@ ensures all(i, 0, len(f.bitset), old(f.bitset[i]) ==> f.bitset[i])
+//@ loop 0:
+//@   invariant hreset(f)
+//@   invariant all(j, 0, rangeindex+1, f.bitset[fidx(f, j, key)])
+//@   invariant all(i, 0, len(f.bitset), old(f.bitset[i]) ==> f.bitset[i])
+//
+//@ func (*filter.Filter).Contains -> r
+//@ props C16 C10
+//@ requires len(f.bitset) > 0 && hreset(f)
+//@ assigns HashBuf
+//@ ensures hreset(f) && r == member(f, key)
+//@ loop 0:
+//@   invariant hreset(f)
+//@   invariant all(j, 0, rangeindex+1, f.bitset[fidx(f, j, key)])
+//
+//@ func filter.Build -> r
+//@ props C16
+//@ requires len(kvs) > 0 && all(i, 0, len(kvs), wf(kvs[i].Key))
+//@ assigns HashBuf
+//@ ensures r != nil && len(r.bitset) > 0 && hreset(r)
+//@ ensures all(i, 0, len(kvs), member(r, uk(kvs[i].Key)))
+//@ loop 0:
+//@   invariant filter != nil && len(filter.bitset) > 0 && hreset(filter) && ref(filter) >= old(alloc) && arrid(filter.bitset) >= old(alloc)
+//@   invariant all(i, 0, rangeindex+1, member(filter, uk(kvs[i].Key)))
